@@ -27,19 +27,21 @@ Blk == [burns |-> ev.burns, mints |-> ev.mints, rewards |-> ev.rewards,
         rows |-> ev.rows, dBurn |-> ev.d_burn, dMint |-> ev.d_mint, auths |-> Range(ev.auths)]
 Is(name) == ev.ev = name
 
-(* Merge never drops an additive / append-only event.  Known deviation: several bridge events of one tag *)
-(* share an index in the block (dup_index); then at least the last one per index must survive.            *)
+(* Merge never drops an additive / append-only event.  Known deviation (known_findings.jsonl): several   *)
+(* bridge events of one tag share an index in the block (dup_index): only the last one per index         *)
+(* survives; that much must still hold.                                                                   *)
 C20_MergeKeepsAll == (Is("BlockMerge") /\ ~(IsKnown(ev) /\ ev.dup_index)) => MergeKeepsAll(Blk)
 C20_MergeKeepsAllKnown == (Is("BlockMerge") /\ IsKnown(ev) /\ ev.dup_index) => MergeKeepsLast(Blk)
-(* One burn ticket per burn.  Known deviation: a block with two or more burns (multi_burn); then one of  *)
-(* the merged tickets must be stored.                                                                     *)
-C20_TicketPerBurn == (Is("BlockTickets") /\ ~(IsKnown(ev) /\ ev.multi_burn)) => TicketPerBurn(Blk)
-C20_TicketPerBurnKnown == (Is("BlockTickets") /\ IsKnown(ev) /\ ev.multi_burn) => StoresOneTicket(Blk)
-(* Totals count every burn.  Known deviation: one authorizer burns twice in the block (dup_auth_burner). *)
+(* One burn ticket per burn.  Known consequence of the merge deviation: two burns to one address in the  *)
+(* block (dup_eth); then every ticket the merge kept must be stored.                                      *)
+C20_TicketPerBurn == (Is("BlockTickets") /\ ~(IsKnown(ev) /\ ev.dup_eth)) => TicketPerBurn(Blk)
+C20_TicketPerBurnKnown == (Is("BlockTickets") /\ IsKnown(ev) /\ ev.dup_eth) => StoresAllMerged(Blk)
+(* Totals count every burn.  Known consequence: one authorizer burns twice in the block (dup_auth_burner). *)
 C20_BurnTotals == (Is("BlockBurnTotals") /\ ~(IsKnown(ev) /\ ev.dup_auth_burner)) => BurnTotals(Blk)
 C20_BurnTotalsKnown == (Is("BlockBurnTotals") /\ IsKnown(ev) /\ ev.dup_auth_burner) => BurnTotalsOfMerged(Blk)
-(* Totals count every mint.  Known deviation: any block with a mint (has_mint).                          *)
-C20_MintTotals == (Is("BlockMintTotals") /\ ~(IsKnown(ev) /\ ev.has_mint)) => MintTotals(Blk)
+(* Totals count every mint.  Known consequence: one client mints twice in the block (dup_minter).         *)
+C20_MintTotals == (Is("BlockMintTotals") /\ ~(IsKnown(ev) /\ ev.dup_minter)) => MintTotals(Blk)
+C20_MintTotalsKnown == (Is("BlockMintTotals") /\ IsKnown(ev) /\ ev.dup_minter) => MintTotalsOfMerged(Blk)
 
 (* harness guard: the store step ran on sqlite (no dialect failure) *)
 HarnessStoreRan == ev.ev \in {"BlockMerge", "BlockTickets", "BlockBurnTotals", "BlockMintTotals"} =>
